@@ -272,11 +272,21 @@ class ArmLoopGen:
     GUARDS = ["none", "break", "continue", "return v", "branch"]
     OTHER = ["no-else", "marker", "early-return", "plain-return"]
 
-    def __init__(self, ch):
+    def __init__(self, ch, nested=False):
         self.ch = ch
+        self.nested = nested  # the whole if / else sits in the arm of an enclosing `if` (the loop region then ends an INNER arm)
         self.kinds_used = []
 
     def program(self):
+        src = self._program()
+        if not self.nested:
+            return src
+        lines = src.split("\n")
+        head, body, tail = lines[:2], lines[2:-3], lines[-3:]  # def + mark(1) | the if/else | mark(9), return v, ''
+        out = head + ["    if ext(9):"] + ["    " + ln for ln in body] + ["    else:", "        mark(30)"] + tail
+        return "\n".join(out)
+
+    def _program(self):
         c = self.ch.choose
         loop = ["while", "for"][c(2)]
         g1 = self.GUARDS[c(len(self.GUARDS))]
